@@ -1149,6 +1149,266 @@ def NoCollisionAt (L : Lowering) (c c' : OClaim) : Prop :=
 
 end Lemmas
 
+section BridgeLemmas
+
+/-! ### claim registry -/
+
+theorem regLookup_some {r : List (Nat × Nat)} {h c : Nat} (hl : regLookup r h = some c) : (h, c) ∈ r := by
+  unfold regLookup at hl
+  cases hf : r.find? (fun p => p.1 == h) with
+  | none => simp [hf] at hl
+  | some p =>
+    simp [hf] at hl
+    have hm := List.mem_of_find?_eq_some hf
+    have hk := List.find?_some hf
+    simp at hk
+    have : p = (h, c) := by cases p; simp_all
+    rw [← this]; exact hm
+
+theorem regLookup_none {r : List (Nat × Nat)} {h : Nat} (hl : regLookup r h = none) : ∀ p ∈ r, p.1 ≠ h := by
+  unfold regLookup at hl
+  cases hf : r.find? (fun p => p.1 == h) with
+  | some p => simp [hf] at hl
+  | none =>
+    intro p hp he
+    have := List.find?_eq_none.mp hf p hp
+    simp [he] at this
+
+/-- a key is held by one claim only -/
+def Functional (r : List (Nat × Nat)) : Prop := ∀ p ∈ r, ∀ q ∈ r, p.1 = q.1 → p.2 = q.2
+
+theorem register_spec {r r' : List (Nat × Nat)} {h c : Nat} (hr : register r h c = some r') (hf : Functional r) :
+    Functional r' ∧ (h, c) ∈ r' ∧ ∀ p ∈ r, p ∈ r' := by
+  unfold register at hr
+  cases hl : regLookup r h with
+  | some c' =>
+    simp [hl] at hr
+    obtain ⟨hc, rfl⟩ := hr
+    subst hc
+    exact ⟨hf, regLookup_some hl, fun p hp => hp⟩
+  | none =>
+    simp [hl] at hr
+    subst hr
+    refine ⟨?_, by simp, fun p hp => by simp [hp]⟩
+    intro p hp q hq he
+    simp at hp hq
+    have hn := regLookup_none hl
+    rcases hp with hp | rfl <;> rcases hq with hq | rfl
+    · exact hf p hp q hq he
+    · exact absurd he (hn p hp)
+    · exact absurd he.symm (hn q hq)
+    · rfl
+
+theorem registerAll_spec (l : List (Nat × Nat)) : ∀ {r r' : List (Nat × Nat)}, registerAll r l = some r' → Functional r →
+    Functional r' ∧ (∀ p ∈ r, p ∈ r') ∧ ∀ p ∈ l, p ∈ r' := by
+  induction l with
+  | nil =>
+    intro r r' h hf
+    simp [registerAll] at h
+    subst h
+    exact ⟨hf, fun p hp => hp, by simp⟩
+  | cons p rest ih =>
+    intro r r' h hf
+    unfold registerAll at h
+    cases hreg : register r p.1 p.2 with
+    | none => simp [hreg] at h
+    | some r1 =>
+      simp [hreg] at h
+      obtain ⟨hf1, hin, hsub⟩ := register_spec hreg hf
+      obtain ⟨hf', hsub', hall⟩ := ih h hf1
+      refine ⟨hf', fun q hq => hsub' q (hsub q hq), ?_⟩
+      intro q hq
+      simp at hq
+      rcases hq with rfl | hq
+      · exact hsub' _ hin
+      · exact hall q hq
+
+/-- an identity-annotated history: every op together with the identity (a number per distinct tuple of ALL
+claim fields) of the claim it submits (ignored for ops that are not votes) -/
+def subsOf : List (Op × Nat) → List (Nat × Nat)
+  | [] => []
+  | (.vote _ _ h _ _ _ _, c) :: rest => (h, c) :: subsOf rest
+  | _ :: rest => subsOf rest
+
+theorem mem_subsOf {hist : List (Op × Nat)} {v n h e : Nat} {ap : Bool} {am cp c : Nat}
+    (hm : (Op.vote v n h e ap am cp, c) ∈ hist) : (h, c) ∈ subsOf hist := by
+  induction hist with
+  | nil => cases hm
+  | cons x rest ih =>
+    obtain ⟨op, c'⟩ := x
+    simp at hm
+    rcases hm with ⟨rfl, rfl⟩ | hm
+    · simp [subsOf]
+    · cases op <;> simp [subsOf, ih hm]
+
+/-- the claim's identity determines what the model carries next to the key (applicability, amount, compass id):
+they are fields (or functions of fields) of the claim -/
+def IdentityDeterminesContent (hist : List (Op × Nat)) : Prop :=
+  ∀ v n h e ap am cp c v' n' h' e' ap' am' cp',
+    (Op.vote v n h e ap am cp, c) ∈ hist → (Op.vote v' n' h' e' ap' am' cp', c) ∈ hist → ap = ap' ∧ am = am' ∧ cp = cp'
+
+/-! ### bridge -/
+
+/-- batch nonces are unique and never above the counter -/
+def IdsOk (b : Bridge) : Prop := b.batches.Pairwise (fun x y => x.id ≠ y.id) ∧ ∀ x ∈ b.batches, x.id ≤ b.lastId
+
+/-- where the value of every transfer ever sent is: in an open batch, in the pool, or burned -/
+def Bridge.value (b : Bridge) : Nat := (b.batches.map (·.amount)).sum + b.pool + b.burned
+
+theorem sum_filter_split (l : List Batch) (p : Batch → Bool) :
+    (l.map (·.amount)).sum = ((l.filter p).map (·.amount)).sum + ((l.filter (fun x => !p x)).map (·.amount)).sum := by
+  induction l with
+  | nil => simp
+  | cons x rest ih =>
+    cases hp : p x <;> simp [hp, ih] <;> omega
+
+theorem sum_remove_unique (l : List Batch) (hp : l.Pairwise (fun x y => x.id ≠ y.id)) (x : Batch) (hx : x ∈ l) :
+    (l.map (·.amount)).sum = x.amount + ((l.filter (fun y => y.id != x.id)).map (·.amount)).sum := by
+  induction l with
+  | nil => cases hx
+  | cons y rest ih =>
+    rw [List.pairwise_cons] at hp
+    simp at hx
+    rcases hx with rfl | hx
+    · have : rest.filter (fun y => y.id != x.id) = rest := by
+        apply List.filter_eq_self.mpr
+        intro z hz
+        have := hp.1 z hz
+        simp; exact fun h => this h.symm
+      simp [this]
+    · have hne : y.id ≠ x.id := hp.1 x hx
+      have := ih hp.2 hx
+      simp [hne, this]; omega
+
+theorem findBatch_some {b : Bridge} {id : Nat} {x : Batch} (h : findBatch b id = some x) : x ∈ b.batches ∧ x.id = id := by
+  unfold findBatch at h
+  refine ⟨List.mem_of_find?_eq_some h, ?_⟩
+  have := List.find?_some h
+  simpa using this
+
+theorem idsOk_filter (b : Bridge) (p : Batch → Bool) (h : IdsOk b) (b' : Bridge) (hb : b'.batches = b.batches.filter p)
+    (hl : b'.lastId = b.lastId) : IdsOk b' := by
+  refine ⟨?_, ?_⟩
+  · rw [hb]; exact h.1.sublist List.filter_sublist
+  · intro x hx; rw [hb] at hx; rw [hl]; exact h.2 x (List.mem_filter.mp hx).1
+
+theorem send_value (b : Bridge) (a : Nat) : (send b a).value = b.value + a := by
+  simp [send, Bridge.value]; omega
+
+theorem send_ids (b : Bridge) (a : Nat) (h : IdsOk b) : IdsOk (send b a) := h
+
+theorem build_value (b : Bridge) (now : Nat) : (build b now).value = b.value := by
+  unfold build
+  split
+  · rfl
+  · simp [Bridge.value]
+
+theorem build_ids (b : Bridge) (now : Nat) (h : IdsOk b) : IdsOk (build b now) := by
+  unfold build
+  split
+  · exact h
+  · refine ⟨?_, ?_⟩
+    · simp only [List.pairwise_append]
+      refine ⟨h.1, by simp, ?_⟩
+      intro x hx y hy
+      simp at hy
+      subst hy
+      have := h.2 x hx
+      simp; omega
+    · intro x hx
+      simp at hx
+      rcases hx with hx | rfl
+      · have := h.2 x hx; simp; omega
+      · simp
+
+theorem exec_value (b : Bridge) (id eth : Nat) (h : IdsOk b) : (execBatch b id eth).value = b.value := by
+  unfold execBatch
+  cases hf : findBatch b id with
+  | none => rfl
+  | some x =>
+    simp only
+    split
+    · obtain ⟨hx, hid⟩ := findBatch_some hf
+      have := sum_remove_unique b.batches h.1 x hx
+      simp only [Bridge.value]
+      rw [this, hid]; omega
+    · rfl
+
+theorem exec_ids (b : Bridge) (id eth : Nat) (h : IdsOk b) : IdsOk (execBatch b id eth) := by
+  unfold execBatch
+  cases hf : findBatch b id with
+  | none => exact h
+  | some x =>
+    simp only
+    split
+    · exact idsOk_filter b _ h _ rfl rfl
+    · exact h
+
+theorem cancel_value (b : Bridge) (now : Nat) : (cancelExpired b now).value = b.value := by
+  have := sum_filter_split b.batches (fun x => !(x.timeout < now))
+  simp only [Bool.not_not] at this
+  simp only [cancelExpired, Bridge.value]
+  rw [this]; omega
+
+theorem cancel_ids (b : Bridge) (now : Nat) (h : IdsOk b) : IdsOk (cancelExpired b now) :=
+  idsOk_filter b _ h _ rfl rfl
+
+theorem handle_value (b : Bridge) (o : Obs) (h : IdsOk b) : (handle b o).value = b.value ∧ IdsOk (handle b o) := by
+  unfold handle
+  split
+  · exact ⟨exec_value b _ _ h, exec_ids b _ _ h⟩
+  · exact ⟨rfl, h⟩
+
+theorem handlerEffects_value (obs : List Obs) : ∀ (b : Bridge), IdsOk b →
+    (handlerEffects b obs).value = b.value ∧ IdsOk (handlerEffects b obs) := by
+  induction obs with
+  | nil => intro b h; exact ⟨rfl, h⟩
+  | cons o rest ih =>
+    intro b h
+    obtain ⟨hv, hi⟩ := handle_value b o h
+    obtain ⟨hv', hi'⟩ := ih (handle b o) hi
+    exact ⟨by simp only [handlerEffects, List.foldl_cons] at hv' ⊢; rw [hv', hv], by simpa [handlerEffects] using hi'⟩
+
+/-- `b'` came out of `b` by handler calls / cancellations only: nothing was un-burned, no batch appeared, the
+claim table is the same -/
+def Later (b b' : Bridge) : Prop :=
+  b.burned ≤ b'.burned ∧ (∀ y ∈ b'.batches, y ∈ b.batches) ∧ b'.execClaims = b.execClaims
+
+theorem Later.refl (b : Bridge) : Later b b := ⟨Nat.le_refl _, fun _ h => h, rfl⟩
+
+theorem Later.trans {a b c : Bridge} (h1 : Later a b) (h2 : Later b c) : Later a c :=
+  ⟨Nat.le_trans h1.1 h2.1, fun y hy => h1.2.1 y (h2.2.1 y hy), h2.2.2.trans h1.2.2⟩
+
+theorem exec_later (b : Bridge) (id eth : Nat) : Later b (execBatch b id eth) := by
+  unfold execBatch
+  cases hf : findBatch b id with
+  | none => exact Later.refl b
+  | some x =>
+    simp only
+    split
+    · exact ⟨by simp, fun _ hy => (List.mem_filter.mp hy).1, rfl⟩
+    · exact Later.refl b
+
+theorem handle_later (b : Bridge) (o : Obs) : Later b (handle b o) := by
+  unfold handle
+  split
+  · exact exec_later b _ _
+  · exact Later.refl b
+
+theorem handlerEffects_later (obs : List Obs) : ∀ b : Bridge, Later b (handlerEffects b obs) := by
+  induction obs with
+  | nil => intro b; exact Later.refl b
+  | cons o rest ih =>
+    intro b
+    have := ih (handle b o)
+    simp only [handlerEffects, List.foldl_cons] at this ⊢
+    exact (handle_later b o).trans this
+
+theorem cancel_later (b : Bridge) (now : Nat) : Later b (cancelExpired b now) :=
+  ⟨Nat.le_refl _, fun _ hy => (List.mem_filter.mp hy).1, rfl⟩
+
+end BridgeLemmas
+
 /-! ## Property theorems (C02) -/
 
 /-- the invariant holds after every history -/
@@ -2197,5 +2457,180 @@ example : (run (realHist.map toyL.op)).log.map (fun o => (o.nonce, o.voters, o.a
     (run (realHist.map toyL.op)).atts.map (fun a => (a.nonce, a.votes)) = [(1, [3]), (1, [1, 2]), (2, [1, 2, 3])] := by
   rw [example_realHist_lowered]
   decide
+
+/-! ### claim identity checked on the history; executed-batch claims and the end blocker (C02) -/
+
+/-- **registry_identifies** ("voted for that identical claim"). If the registry accepted every submission
+`(key, identity)` of a history, then within that history the key determines the identity: no two different
+claims share an attestation. This is the condition the driver checks on every vote line (`register`; a
+refused line prints `distinct-claims-share-key`). -/
+theorem registry_identifies (subs r : List (Nat × Nat)) (h : registerAll [] subs = some r) :
+    ∀ p ∈ subs, ∀ q ∈ subs, p.1 = q.1 → p.2 = q.2 := by
+  have hf : Functional ([] : List (Nat × Nat)) := by intro p hp; cases hp
+  obtain ⟨hfun, _, hall⟩ := registerAll_spec subs h hf
+  intro p hp q hq he
+  exact hfun p (hall p hp) q (hall q hq) he
+
+/-- **checked_history_identifies_claim.** For a history whose vote ops are annotated with the identity of the
+submitted claim (identity = all fields, so it determines the content the model carries): if the registry accepts
+the whole history, `HashIdentifiesClaim` holds — the hypothesis of `voters_voted_identical_claim` is discharged
+by a run-time check on the very history at hand instead of being assumed. -/
+theorem checked_history_identifies_claim (hist : List (Op × Nat)) (hid : IdentityDeterminesContent hist)
+    (r : List (Nat × Nat)) (hreg : registerAll [] (subsOf hist) = some r) :
+    HashIdentifiesClaim (hist.map (·.1)) := by
+  intro v n h e ap am cp v' e' ap' am' cp' ha ha'
+  obtain ⟨pre, post, he, _⟩ := ha
+  obtain ⟨pre', post', he', _⟩ := ha'
+  have hm : Op.vote v n h e ap am cp ∈ hist.map (·.1) := by rw [he]; simp
+  have hm' : Op.vote v' n h e' ap' am' cp' ∈ hist.map (·.1) := by rw [he']; simp
+  obtain ⟨⟨op, c⟩, hin, hop⟩ := List.mem_map.mp hm
+  obtain ⟨⟨op', c'⟩, hin', hop'⟩ := List.mem_map.mp hm'
+  simp at hop hop'
+  subst hop hop'
+  have hcc : c = c' := registry_identifies _ r hreg (h, c) (mem_subsOf hin) (h, c') (mem_subsOf hin') rfl
+  subst hcc
+  exact hid _ _ _ _ _ _ _ _ _ _ _ _ _ _ _ hin hin'
+
+/-- **counted_voters_voted_identical_claim.** The end-to-end form: in a registry-checked, identity-annotated
+history every voter counted for a claim that took effect has an accepted vote op carrying that claim's nonce,
+key, remote height, applicability, amount and compass id. -/
+theorem counted_voters_voted_identical_claim (hist : List (Op × Nat)) (hid : IdentityDeterminesContent hist)
+    (r : List (Nat × Nat)) (hreg : registerAll [] (subsOf hist) = some r) :
+    ∀ o ∈ (run (hist.map (·.1))).log, ∀ v ∈ o.voters,
+      AcceptedIn (hist.map (·.1)) v o.nonce o.hash o.eth o.applicable o.amount o.compass :=
+  voters_voted_identical_claim _ (checked_history_identifies_claim hist hid r hreg)
+
+/-- **bridge_value_conserved** ("applied at most once"). Every unit of value a user sent is at any time in
+exactly one place — an open batch, the unbatched pool, or burned: `send` adds to the sum, building a batch,
+executing one, cancelling the expired ones and a whole end block (any tally, any block time) keep it. A batch
+cannot be both executed (burned) and cancelled (back in the pool), nor executed twice. -/
+theorem bridge_value_conserved (s : Sky) (power : Nat → Nat) (total : Nat) (ef : EventFault) (now : Nat) (fifty : Bool)
+    (h : IdsOk s.b) :
+    (endBlock s power total ef now fifty).b.value = s.b.value ∧ IdsOk (endBlock s power total ef now fifty).b := by
+  have h1 : (if fifty then build s.b now else s.b).value = s.b.value ∧ IdsOk (if fifty then build s.b now else s.b) := by
+    cases fifty
+    · exact ⟨rfl, h⟩
+    · exact ⟨build_value s.b now, build_ids s.b now h⟩
+  obtain ⟨hv, hi⟩ := handlerEffects_value ((tally s.o power total ef).log.drop s.o.log.length) _ h1.2
+  simp only [endBlock]
+  exact ⟨by rw [cancel_value, hv, h1.1], cancel_ids _ now hi⟩
+
+/-- step forms of the conservation law -/
+theorem bridge_value_steps (b : Bridge) (h : IdsOk b) (a now id eth : Nat) :
+    (send b a).value = b.value + a ∧ (build b now).value = b.value ∧ (execBatch b id eth).value = b.value ∧
+      (cancelExpired b now).value = b.value :=
+  ⟨send_value b a, build_value b now, exec_value b id eth h, cancel_value b now⟩
+
+/-- **executed_batch_claim_is_applied** ("exactly once whenever it can be applied at all"). `OutgoingTxBatchExecuted`
+on a batch that is in the store, reported at a remote height before its timeout: the vouchers are burned, no batch
+with that nonce remains, the pool is untouched — and a cancellation sweep at ANY later block time hands back only
+other batches. -/
+theorem executed_batch_claim_is_applied (b : Bridge) (id eth : Nat) (x : Batch) (hf : findBatch b id = some x)
+    (ht : eth < x.timeout) (now : Nat) :
+    (execBatch b id eth).burned = b.burned + x.amount ∧ (execBatch b id eth).pool = b.pool ∧
+      (∀ y ∈ (execBatch b id eth).batches, y.id ≠ id) ∧
+      (cancelExpired (execBatch b id eth) now).pool =
+        b.pool + ((b.batches.filter (fun y => y.id != id && decide (y.timeout < now))).map (·.amount)).sum := by
+  unfold execBatch
+  simp only [hf, ht, if_true]
+  refine ⟨trivial, trivial, ?_, ?_⟩
+  · intro y hy
+    have := (List.mem_filter.mp hy).2
+    simpa using this
+  · simp [cancelExpired, List.filter_filter, Bool.and_comm]
+
+/-- an executed-batch claim that cannot be applied (unknown batch, or reported at / after the timeout) changes
+nothing -/
+theorem executed_batch_claim_not_applicable_is_noop (b : Bridge) (id eth : Nat) (h : canExecute b id eth = false) :
+    execBatch b id eth = b := by
+  unfold canExecute at h
+  unfold execBatch
+  cases hf : findBatch b id with
+  | none => rfl
+  | some x => simp [hf] at h; simp [Nat.not_lt.mpr h]
+
+/-- **observed_batch_claim_applied_in_its_block.** End-block level, every state, table, fault set and BLOCK TIME:
+if the first claim the tally of this block observes is an executed-batch claim whose batch is in the store when the
+tally runs (after `createBatch`) and whose remote height lies before the batch timeout, then after the end block
+the batch's value is burned and no batch with that nonce is left — also when the batch expires in this very block:
+`cleanupTimedOutBatches` runs after the tally and finds it gone. -/
+theorem observed_batch_claim_applied_in_its_block (s : Sky) (power : Nat → Nat) (total : Nat) (ef : EventFault)
+    (now : Nat) (fifty : Bool) (o : Obs) (rest : List Obs) (id : Nat) (x : Batch)
+    (hobs : (tally s.o power total ef).log.drop s.o.log.length = o :: rest)
+    (hclaim : regLookup (if fifty then build s.b now else s.b).execClaims o.hash = some id)
+    (hopen : findBatch (if fifty then build s.b now else s.b) id = some x) (ht : o.eth < x.timeout) :
+    s.b.burned + x.amount ≤ (endBlock s power total ef now fifty).b.burned ∧
+      ∀ y ∈ (endBlock s power total ef now fifty).b.batches, y.id ≠ id := by
+  have hb0 : s.b.burned = (if fifty then build s.b now else s.b).burned := by
+    cases fifty
+    · rfl
+    · simp only [if_true]; unfold build; split <;> rfl
+  simp only [endBlock, hobs]
+  generalize (if fifty then build s.b now else s.b) = b1 at *
+  have hstep : handlerEffects b1 (o :: rest) = handlerEffects (execBatch b1 id o.eth) rest := by
+    simp [handlerEffects, handle, hclaim]
+  rw [hstep]
+  obtain ⟨hbu, _, hgone, _⟩ := executed_batch_claim_is_applied b1 id o.eth x hopen ht now
+  have hl := (handlerEffects_later rest (execBatch b1 id o.eth)).trans (cancel_later _ now)
+  refine ⟨?_, fun y hy => hgone y (hl.2.1 y hy)⟩
+  have := hl.1
+  omega
+
+
+/-! ### non-vacuity (claim identity, executed-batch claims) -/
+
+/-- two deposits that differ only in the bridge deployment: distinct identities 1 and 2 -/
+example : registerAll [] [(77, 1), (78, 2), (77, 1)] = some [(77, 1), (78, 2)] := by decide
+
+/-- … keyed alike (a hash that leaves the deployment id out): the registry refuses the history -/
+example : registerAll [] [(77, 1), (77, 2)] = none := by decide
+
+example : IdentityDeterminesContent [(.vote 1 1 77 100 true 5 2, 1), (.vote 2 1 78 100 true 5 1, 2), (.tally [(1, 10)] [], 0)] ∧
+    registerAll [] (subsOf [(.vote 1 1 77 100 true 5 2, 1), (.vote 2 1 78 100 true 5 1, 2), (.tally [(1, 10)] [], 0)])
+      = some [(77, 1), (78, 2)] := by
+  refine ⟨?_, by decide⟩
+  intro v n h e ap am cp c v' n' h' e' ap' am' cp' h1 h2
+  simp at h1 h2
+  rcases h1 with ⟨_, _, _, _, rfl, rfl, rfl, rfl⟩ | ⟨_, _, _, _, rfl, rfl, rfl, rfl⟩ <;>
+    rcases h2 with ⟨_, _, _, _, rfl, rfl, rfl, h⟩ | ⟨_, _, _, _, rfl, rfl, rfl, h⟩ <;> simp_all
+
+/-- a batch of 201 built at t = 1000 (timeout 1600), its executed-batch claim (key 77, nonce 1) voted by four of
+five equal validators -/
+def expiryDemo : Sky :=
+  let s0 : Sky := { o := activate St.init 1, b := build (send (send {} 100) 101) 1000 }
+  let s1 := (voteExec s0 1 1 77 100 1 1).1
+  let s2 := (voteExec s1 2 1 77 100 1 1).1
+  let s3 := (voteExec s2 3 1 77 100 1 1).1
+  (voteExec s3 4 1 77 100 1 1).1
+
+def fiveTens : List (Nat × Nat) := [(1, 10), (2, 10), (3, 10), (4, 10), (5, 10)]
+
+/-- quorum and expiry in one block (block time 1601 > timeout 1600): the claim is observed AND applied — burned,
+batch gone, nothing back in the pool; the hypotheses of `observed_batch_claim_applied_in_its_block` are met -/
+example :
+    let s' := endBlock expiryDemo (powerOf fiveTens) (totalOf fiveTens) noFault 1601 false
+    IdsOk expiryDemo.b ∧ expiryDemo.b.batches = [{ id := 1, amount := 201, timeout := 1600 }] ∧
+    ((tally expiryDemo.o (powerOf fiveTens) (totalOf fiveTens) noFault).log.drop expiryDemo.o.log.length).map (·.hash) = [77] ∧
+    regLookup expiryDemo.b.execClaims 77 = some 1 ∧
+    s'.o.lastObserved = 1 ∧ s'.b.burned = 201 ∧ s'.b.batches = [] ∧ s'.b.pool = 0 ∧ s'.supply = 0 ∧ s'.b.value = expiryDemo.b.value := by
+  refine ⟨⟨by decide, by decide⟩, by decide, by decide, by decide, by decide, by decide, by decide, by decide, by decide, by decide⟩
+
+/-- without quorum in that block the batch simply expires: cancelled, its value back in the pool, and the claim, once
+it does get its quorum, cannot be applied any more (observed, nothing burned) -/
+example :
+    let s' := endBlock expiryDemo (powerOf [(1, 10), (2, 10), (3, 10), (4, 10), (5, 30)]) 70 noFault 1601 false
+    let s'' := endBlock s' (powerOf fiveTens) (totalOf fiveTens) noFault 1603 false
+    s'.o.lastObserved = 0 ∧ s'.b.batches = [] ∧ s'.b.pool = 201 ∧ s'.b.burned = 0 ∧
+    s''.o.lastObserved = 1 ∧ s''.b.burned = 0 ∧ s''.b.pool = 201 := by
+  refine ⟨by decide, by decide, by decide, by decide, by decide, by decide, by decide⟩
+
+/-- at a multiple of 50 the returned transfers are batched again (new nonce 2) before the tally -/
+example :
+    let s' := endBlock expiryDemo (powerOf [(1, 10), (2, 10), (3, 10), (4, 10), (5, 30)]) 70 noFault 1601 false
+    (endBlock s' (powerOf fiveTens) (totalOf fiveTens) noFault 1700 true).b.batches = [{ id := 2, amount := 201, timeout := 2300 }] := by
+  decide
+
+/-- `additionalPatchChecks`: a claim reported at a remote height at / after the timeout of the open batch is refused -/
+example : (voteExec expiryDemo 5 1 79 1600 1 1).2 = .rejected ∧ (voteExec expiryDemo 5 1 79 1599 1 1).2 = .ok := by decide
 
 end Paloma.Oracle
